@@ -31,7 +31,9 @@ Definition heap := list gnode.
     '<Recursion on T with id=N>' and repr(value) *)
 Record ginfo := mkInfo { gi_marker : nat -> str; gi_repr : nat -> str }.
 
-Record gstate := mkG { g_visited : list nat; g_warns : list nat }.
+(** a warning: the object whose printer failed, and whether the exception came from an element /
+    argument it was printing (an escaping ValueError of a non-document) rather than from the printer itself *)
+Record gstate := mkG { g_visited : list nat; g_warns : list (nat * bool) }.
 
 Inductive gres := GOk (v : pyval) | GExc | GFuel.
 Inductive gresl := LOk (vs : list pyval) | LExc | LFuel.
@@ -44,7 +46,7 @@ Fixpoint remove_first (r : nat) (l : list nat) : list nat :=
 Definition visited_b (r : nat) (st : gstate) : bool := existsb (Nat.eqb r) (g_visited st).
 Definition start_visit (r : nat) (st : gstate) : gstate := mkG (r :: g_visited st) (g_warns st).
 Definition end_visit (r : nat) (st : gstate) : gstate := mkG (remove_first r (g_visited st)) (g_warns st).
-Definition warn (r : nat) (st : gstate) : gstate := mkG (g_visited st) (g_warns st ++ [r]).
+Definition warn (r : nat) (escaped : bool) (st : gstate) : gstate := mkG (g_visited st) (g_warns st ++ [(r, escaped)]).
 
 Section Graph.
 Variable h : heap.
@@ -92,11 +94,11 @@ Fixpoint grun (fuel : nat) (r : nat) (st : gstate) : gres * gstate :=
       if visited_b r st then (GOk (VRepr (gi_marker info r)), st)
       else
         let st1 := start_visit r st in
-        let failed (st2 : gstate) := (GOk (VRepr (gi_repr info r)), warn r (end_visit r st2)) in
+        let failed (esc : bool) (st2 : gstate) := (GOk (VRepr (gi_repr info r)), warn r esc (end_visit r st2)) in
         let container (l : list nat) (mk : list pyval -> pyval) :=
             match gruns_with (grun f) l st1 with
             | (LOk vs, st2) => (GOk (mk vs), end_visit r st2)
-            | (LExc, st2) => failed st2      (* an exception escaped from an element: caught here *)
+            | (LExc, st2) => failed true st2      (* an exception escaped from an element: caught here *)
             | (LFuel, st2) => (GFuel, st2)
             end in
         match nth_error h r with
@@ -107,13 +109,14 @@ Fixpoint grun (fuel : nat) (r : nat) (st : gstate) : gres * gstate :=
         | Some (GDict kvs) => container (split_pairs kvs) (fun vs => VDict (join_pairs vs) [])
         | Some (GUser fn args fault) =>
             match fault with
-            | FRaise => failed st1
+            | FRaise => failed false st1
             | FNonDoc => (GExc, end_visit r st1)   (* end_visit, then ValueError from the return-type check *)
             | FNone => container args (mk_call fn args)
             | FRaiseAfter =>
                 match gruns_with (grun f) args st1 with
                 | (LFuel, st2) => (GFuel, st2)
-                | (_, st2) => failed st2
+                | (LExc, st2) => failed true st2
+                | (LOk _, st2) => failed false st2
                 end
             end
         end
@@ -150,7 +153,7 @@ Fixpoint gspec (fuel : nat) (anc : list nat) (r : nat) : option pyval :=
 (** the warnings of a print, in the order they are issued: the failing
     objects met along the traversal (an object that fails after printing its
     arguments warns after them) *)
-Fixpoint gwarns (fuel : nat) (anc : list nat) (r : nat) : list nat :=
+Fixpoint gwarns (fuel : nat) (anc : list nat) (r : nat) : list (nat * bool) :=
   match fuel with
   | O => []
   | S f =>
@@ -162,8 +165,8 @@ Fixpoint gwarns (fuel : nat) (anc : list nat) (r : nat) : list nat :=
         | Some (GList l) | Some (GTuple l) => kids l
         | Some (GDict kvs) => kids (split_pairs kvs)
         | Some (GUser _ args FNone) => kids args
-        | Some (GUser _ args FRaiseAfter) => kids args ++ [r]
-        | Some (GUser _ _ FRaise) => [r]
+        | Some (GUser _ args FRaiseAfter) => kids args ++ [(r, false)]
+        | Some (GUser _ _ FRaise) => [(r, false)]
         | Some (GUser _ _ FNonDoc) => []
         end
   end.
